@@ -343,6 +343,28 @@ def random_ring_cases(chk, ucmod, idxmod, n, tally, rng):
         chk.traces += 1
         chk.case(("ring", tuple(cell), cen, limit, tol), nontrivial=len(uc.ringds) < len(uc.peaks))
         done += 1
+        # ring histories on the SAME object: same limit with another tolerance, the same pair again, another limit
+        # (a cached ring table must never survive a change of tolerance or limit)
+        for (lim2, tol2) in ((limit, tol * 0.137), (limit, tol * 0.137), (limit, tol * 2.9), (limit * 0.93, tol * 2.9), (limit, tol)):
+            try:
+                uc.makerings(lim2, tol2)
+            except IndexError:
+                break
+            ds2 = [p[0] for p in uc.peaks]
+            if not (L.margins_ok(ds2, tol2) and min(abs(lim2 + tol2 - d) for d in ds2) > L.MARGIN):
+                continue
+            params2 = {"kind": "rings", "cell": list(cell), "cen": cen, "limit": lim2, "tol": tol2,
+                       "route": "makerings (after other makerings calls on the same object)",
+                       "history": [[limit, tol], [lim2, tol2]]}
+            tid2 = len(tally.ring_traces)
+            try:
+                tally.ring_traces.append(L.ring_trace(uc, tol2, tid2, "makerings"))
+                tally.ring_params[tid2] = params2
+                chk.traces += 1
+                chk.case(("ringhist", tuple(cell), cen, lim2, tol2, tid2))
+            except L.Unmappable as e:
+                tally.add("rings:unmappable", len(uc.peaks), "ring table cannot be mapped on the list: %s" % e, params2)
+        uc.makerings(limit, tol)
         if i % 3 == 0:
             indexer_route(chk, ucmod, idxmod, cell, cen, limit, tol, uc, tally, rng)
     return done
